@@ -217,7 +217,11 @@ func (f *family) rollup() {
 			}
 
 			// finally, need commit edit log
-			f.commitEditLog(editLog)
+			if !f.commitEditLog(editLog) {
+				// commit failure, source files are still marked as need rollup, target families must keep the reference files,
+				// if clean them, next rollup job will merge the source files into target families again(duplicate data).
+				return
+			}
 
 			// clean reference files from target file
 			for targetFamily, files := range targetFamiles {
